@@ -1,5 +1,6 @@
 import FcpptProofs.C02.Refine
 import FcpptProofs.C02.Sound
+import FcpptProofs.C02.Progress
 set_option linter.unusedSimpArgs false
 set_option linter.unusedVariables false
 /-!
@@ -337,6 +338,14 @@ theorem plus_spec {g : G} {a : P} {sk : Sk} {inp : List Nat} {x : Res} :
     | _ => cases hp
   · rintro ⟨y, h1, rfl⟩
     exact .sugar (p := .plus a) trivial h1
+
+/-- parsers only consume from the front, and a parser that is syntactically non-nullable (the
+condition well-formed grammars impose on the operand of a repetition) consumes at least one
+character whenever it succeeds — each iteration of a well-formed repetition makes progress -/
+theorem nonnullable_consumes {g : G} {p : P} {sk : Sk} {inp rest : List Nat} {v : Val}
+    (h : Derives g p sk inp (.ok v rest)) :
+    rest.length ≤ inp.length ∧ (nullable p = false → rest.length < inp.length) :=
+  progress h v rest rfl
 
 /-! ## non-vacuity: concrete grammars run through the model -/
 
